@@ -393,14 +393,20 @@ Section GridTracks.
         if fr_valid tracks h_prev h then (h_prev, h, true) else fr_loop f tracks space h
     end.
   Definition fr_fuel (tracks : list track) : nat := (length tracks + 2)%nat.
+  Definition fr_exit (tracks : list track) (space : T) : T * T * bool :=
+    fr_loop (fr_fuel tracks) tracks space infinity.
   Definition find_size_of_fr (tracks : list track) (space : T) : T :=
     if space =? zero then zero
-    else snd (fst (fr_loop (fr_fuel tracks) tracks space infinity)).
+    else snd (fst (fr_exit tracks space)).
+  (* the sum of the flex factors of the tracks treated as flexible in the final iteration of the loop *)
+  Definition final_flex_factor_sum (tracks : list track) (space : T) : T :=
+    snd (fr_sums tracks (fst (fst (fr_exit tracks space)))).
 
   Definition slice (tracks : list track) (start len : nat) : list track := firstn len (skipn start tracks).
 
-  Definition apply_flex_fraction (fraction : T) (tracks : list track) : list track :=
-    map (fun t => if is_fr (maxf t) then set_base t (fmax (base_size t) (sfn_value (maxf t) * fraction)) else t) tracks.
+  Definition expand_one (fraction : T) (t : track) : track :=
+    if is_fr (maxf t) then set_base t (fmax (base_size t) (sfn_value (maxf t) * fraction)) else t.
+  Definition apply_flex_fraction (fraction : T) (tracks : list track) : list track := map (expand_one fraction) tracks.
 
   (* 11.7.  `items`: for every item crossing a flexible track, (start, length) of the tracks it crosses in the track vector
      and its max-content contribution (oracle input: step 11.5 / measurement are outside the model) *)
